@@ -231,7 +231,29 @@ class C17(Monitor):
         # half of the pairs share one id: that is exactly the situation of an update request (the replacement carries the id of the
         # region it replaces), and identity of ids says nothing about geometry
         same = bool(case.get("seed", 0) % 2)
-        ra, rb = mk(a, "a"), mk(b, "a" if same else "b")
+
+        def as_given(shape):
+            # a fifth of the pairs arrive the way a JSON client may send them: numbers as text ("9", "110.5") or as ints
+            if case.get("seed", 0) % 5 != 3 or "small" in case:
+                return shape
+            stats["regions_given_as_text_or_int"] += 1
+            out = []
+            for val in shape[1]:
+                q = rnd.random()
+                if not math.isfinite(val):
+                    out.append(val)
+                elif q < 0.5:
+                    out.append("%r" % val if rnd.random() < 0.5 else ("%d" % val if val == int(val) else "%r" % val))
+                elif q < 0.7 and val == int(val):
+                    out.append(int(val))
+                else:
+                    out.append(val)
+            return (shape[0], out)
+        try:
+            ra, rb = mk(as_given(a), "a"), mk(as_given(b), "a" if same else "b")
+        except Exception as exc:  # noqa: B902
+            bad("constructor-raised", "region data %r / %r: %r" % (as_given(a), as_given(b), exc))
+            return dict(violations=v, nontrivial=False, stats=stats, sets={}, sample=dict(a=a, b=b))
         stats["pairs_same_id" if same else "pairs_distinct_ids"] += 1
         if case.get("extreme"):
             stats["pairs_extreme_magnitude"] += 1
